@@ -42,11 +42,12 @@ func zzC03(n int, percent, sharedVariants bool) {
 		ds.Spec.Strategy.RollingUpdate.MaxUnavailable = zzIntOrString("maxUnavailable", n+2)
 		ds.Spec.Strategy.RollingUpdate.MaxPodSchedulerFailure = zzIntOrString("maxSchedFail", n+2)
 	}
-	// the creation side may be throttled (slow start of one pod per interval, just activated) so that
-	// fewer pods may be created than nodes lack one: U still counts every node without an available pod
-	if !percent && nondet.Bool("slowStartOfOne") {
-		one := intstr.FromInt(1)
-		ds.Spec.Strategy.RollingUpdate.SlowStartAdditiveIncrease = &one
+	// the creation side is throttled by default (slow start of one pod per interval, just activated: fewer
+	// pods may be created than nodes lack one) or not (increase of ten): U counts every node without an
+	// available pod either way
+	if !percent && nondet.Bool("creationUnthrottled") {
+		ten := intstr.FromInt(10)
+		ds.Spec.Strategy.RollingUpdate.SlowStartAdditiveIncrease = &ten
 	}
 	rs := zzReplicaSet()
 	// concrete shape: categories fork here
